@@ -20,7 +20,9 @@ POSTCONDITION Accepted
 # (mode, writers on A, concurrent readers on A, writers on B, messages per writer, when A closes)
 # "half": A half-closes (CloseWrite) in the middle while B keeps writing and A keeps reading
 CONN_QUICK = [("tls", 2, 2, 1, 4, "after"), ("gm", 2, 1, 1, 4, "after"), ("tls", 3, 2, 2, 5, "during"), ("gm", 3, 1, 2, 5, "during"), ("tls", 1, 1, 1, 3, "during"),
-              ("gm", 1, 1, 3, 6, "half"), ("tls", 2, 1, 3, 6, "half")]
+              ("gm", 1, 1, 3, 6, "half"), ("tls", 2, 1, 3, 6, "half"),
+              # "badrec": while Writes on A are blocked in the transport a forged record reaches A's reader, which answers with an alert
+              ("gm", 2, 1, 0, 3, "badrec"), ("tls", 2, 2, 0, 3, "badrec"), ("gm", 1, 1, 0, 2, "badrec")]
 CONN_THOROUGH = CONN_QUICK + [("tls", 4, 2, 2, 8, "after"), ("gm", 4, 1, 2, 8, "after"), ("tls", 4, 2, 3, 8, "during"), ("gm", 4, 1, 3, 8, "during"), ("gm", 2, 1, 4, 8, "half"), ("tls", 2, 2, 4, 8, "half")] * 3
 
 # (mode, clients, handshakes per client, rotations)
@@ -131,7 +133,7 @@ def run(ctx):
                     env={"GORACE": "log_path=%s halt_on_error=0 exitcode=0" % logp})
         evs = read_ndjson(tf)
         traces.append([{"ev": "reset", "op": 0}] + evs)
-        descr.append("%s connection, %d writers and %d readers on A, %d writers on B, %d messages each, A closes %s" % (mode, nwa, nra, nwb, k, cl))
+        descr.append("%s connection, %d writers and %d readers on A, %d writers on B, %d messages each, %s" % (mode, nwa, nra, nwb, k, {"badrec": "a forged record reaches A while its Writes are blocked in the transport", "half": "A half-closes in the middle"}.get(cl, "A closes " + cl)))
         for rep in race_reports(logp):
             if not any("github.com/tjfoc/gmsm/" in t for t in rep):
                 raise Infra("data race outside the library (harness bug?): %s" % (rep,))
